@@ -1,0 +1,141 @@
+//go:build verif
+
+package litefs
+
+import "sync/atomic"
+
+// This file is only compiled with the "verif" build tag. It exposes
+// observation points used by the external verification harness. Nothing in
+// here changes the behaviour of the store.
+
+// VerifStepFunc is called at the entry of every database page write and
+// database file truncation. The internal flag is true when the write was
+// issued by LiteFS itself (apply, checkpoint, journal rollback) rather than
+// passed through from an application.
+type VerifStepFunc func(db *DB, kind string, pgno uint32, internal bool)
+
+// VerifLockFunc is called, outside of the mutex, whenever one of the
+// database's advisory locks changes state.
+type VerifLockFunc func(db *DB, lockType LockType, prev, next RWMutexState)
+
+var (
+	verifStepHook atomic.Pointer[VerifStepFunc]
+	verifLockHook atomic.Pointer[VerifLockFunc]
+)
+
+// SetVerifStepHook installs fn as the step hook. A nil fn removes the hook.
+func SetVerifStepHook(fn VerifStepFunc) {
+	if fn == nil {
+		verifStepHook.Store(nil)
+		return
+	}
+	verifStepHook.Store(&fn)
+}
+
+// SetVerifLockHook installs fn as the lock hook. A nil fn removes the hook.
+func SetVerifLockHook(fn VerifLockFunc) {
+	if fn == nil {
+		verifLockHook.Store(nil)
+		return
+	}
+	verifLockHook.Store(&fn)
+}
+
+func verifStep(db *DB, kind string, pgno uint32, internal bool) {
+	if fn := verifStepHook.Load(); fn != nil {
+		(*fn)(db, kind, pgno, internal)
+	}
+}
+
+func verifInitDB(db *DB) {
+	for _, lockType := range VerifLockTypes {
+		lockType := lockType
+		db.verifMutex(lockType).OnLockStateChange = func(prev, next RWMutexState) {
+			if fn := verifLockHook.Load(); fn != nil {
+				(*fn)(db, lockType, prev, next)
+			}
+		}
+	}
+}
+
+// VerifLockTypes lists every advisory lock of a database.
+var VerifLockTypes = []LockType{
+	LockTypePending, LockTypeShared, LockTypeReserved,
+	LockTypeWrite, LockTypeCkpt, LockTypeRecover,
+	LockTypeRead0, LockTypeRead1, LockTypeRead2, LockTypeRead3, LockTypeRead4,
+	LockTypeDMS,
+}
+
+func (db *DB) verifMutex(lockType LockType) *RWMutex {
+	switch lockType {
+	case LockTypePending:
+		return &db.pendingLock
+	case LockTypeShared:
+		return &db.sharedLock
+	case LockTypeReserved:
+		return &db.reservedLock
+	case LockTypeWrite:
+		return &db.writeLock
+	case LockTypeCkpt:
+		return &db.ckptLock
+	case LockTypeRecover:
+		return &db.recoverLock
+	case LockTypeRead0:
+		return &db.read0Lock
+	case LockTypeRead1:
+		return &db.read1Lock
+	case LockTypeRead2:
+		return &db.read2Lock
+	case LockTypeRead3:
+		return &db.read3Lock
+	case LockTypeRead4:
+		return &db.read4Lock
+	case LockTypeDMS:
+		return &db.dmsLock
+	default:
+		panic("verifMutex: invalid lock type")
+	}
+}
+
+// VerifLockHolder describes who holds one advisory lock.
+type VerifLockHolder struct {
+	State       RWMutexState
+	SharedN     int    // number of shared holders
+	ClientOwner uint64 // owner of the exclusive holder, if it is an application connection
+	IsClient    bool   // true if the exclusive holder is an application connection
+}
+
+// VerifLockHolder reports the state of one advisory lock and whether its
+// exclusive holder (if any) is a guard registered for an application owner.
+func (db *DB) VerifLockHolder(lockType LockType) VerifLockHolder {
+	rw := db.verifMutex(lockType)
+
+	rw.mu.Lock()
+	h := VerifLockHolder{State: rw.state(), SharedN: rw.sharedN}
+	excl := rw.excl
+	rw.mu.Unlock()
+
+	if excl != nil {
+		db.guardSets.mu.Lock()
+		for owner, gs := range db.guardSets.m {
+			if gs.Guard(lockType) == excl {
+				h.ClientOwner, h.IsClient = owner, true
+				break
+			}
+		}
+		db.guardSets.mu.Unlock()
+	}
+	return h
+}
+
+// VerifGuardState returns the state of an application owner's guard on a lock.
+func (db *DB) VerifGuardState(owner uint64, lockType LockType) RWMutexState {
+	gs := db.GuardSet(owner)
+	if gs == nil {
+		return RWMutexStateUnlocked
+	}
+	return gs.Guard(lockType).State()
+}
+
+// VerifPageSize returns the page size the database currently assumes.
+func (db *DB) VerifPageSize() uint32 { return db.pageSize }
